@@ -5,6 +5,9 @@
    c19_driver.py torn    < params.json     hunt for snapshots served while reb_simulation_synchronize runs outside the mutex
    c19_driver.py steps   < params.json     snapshots served while the user calls sim.steps(n) / sim.step() (no mutex taken)
    c19_driver.py keyboard < params.json    pause / single step / 50 steps / resume + pulls via the web server vs run without a server
+   c19_driver.py coresident < params.json  final bits of simulation B alone / after others / next to others in threads / served (one fresh process each)
+   c19_driver.py hammer  < params.json     per integrator type: T simulations of the same type at the same time in T threads vs sequentially
+   c19_driver.py teardown < params.json    create / serve / free (and stop+restart the server) under continuous client load
    c19_driver.py fdclose < params.json     save/load of one simulation while another simulation's server thread closes descriptors twice
    c19_driver.py w512    < params.json     (avx512 build) two WHFast512 simulations alternated step by step vs separately
 Prints one JSON object on the last line of stdout."""
@@ -80,7 +83,28 @@ def sha(b):
 
 
 # ------------------------------------------------------------------------------------------------ simulations
+def build_collide(spec):
+    """many overlapping hard spheres: several collisions per step that share particles, so the outcome depends on the order in which
+    reb_collision_search hands them to the resolver (it shuffles them with the simulation's own rand_seed)"""
+    rng = random.Random(spec["seed"])
+    sim = rebound.Simulation()
+    sim.rand_seed = spec["seed"] % (2 ** 31)
+    sim.G = spec.get("G", 1.0)
+    n = spec["n"]; L = spec.get("box", 1.0); rad = spec.get("radius", 0.09)
+    for i in range(n):
+        sim.add(m=rng.uniform(0.5, 2.0) * 1e-3, r=rad * rng.uniform(0.7, 1.3), x=rng.uniform(0, L), y=rng.uniform(0, L), z=rng.uniform(0, 0.3 * L),
+                vx=rng.uniform(-1, 1), vy=rng.uniform(-1, 1), vz=rng.uniform(-.3, .3))
+    sim.integrator = spec.get("integrator", "leapfrog")
+    sim.dt = spec.get("dt", 0.005)
+    sim.gravity = spec.get("gravity", "none")
+    sim.collision = spec.get("collision", "direct")
+    sim.collision_resolve = "hardsphere"
+    return sim
+
+
 def build(spec):
+    if spec.get("kind") == "collide":
+        return build_collide(spec)
     rng = random.Random(spec["seed"])
     sim = rebound.Simulation()
     sim.rand_seed = spec["seed"] % (2 ** 31)
@@ -581,6 +605,10 @@ def mode_keyboard(p):
             wait_for(lambda: sim.t > p["pause_at"] * tmax)
             for _ in range(p["pulls_before"]):
                 fetch(port); info["pulls_running"] += 1
+            for k in p.get("other_keys", []):                         # every other key the handler knows (+ unknown ones), while running
+                try: fetch(port, "/keyboard/%d" % k)
+                except ValueError: pass                             # keys without a case get an empty reply
+                info["other_keys_sent"] = info.get("other_keys_sent", 0) + 1
             fetch(port, "/keyboard/32")                               # space: pause
             if not wait_for(lambda: sim._status == PAUSED, 10.0):
                 return
@@ -622,7 +650,7 @@ def mode_keyboard(p):
         print(json.dumps({"hang": True})); sys.stdout.flush(); os._exit(3)
     bbits = particle_bits(sim)
     res = {"integrator": spec["integrator"], "paused": info["paused"], "single_steps": info["single_steps"], "multi_steps": info["multi_steps"],
-           "pulls_running": info["pulls_running"], "client_error": info["err"], "ref_steps": ref_steps,
+           "pulls_running": info["pulls_running"], "other_keys_sent": info.get("other_keys_sent", 0), "client_error": info["err"], "ref_steps": ref_steps,
            "final_differing_doubles": sum(1 for a, b in zip(refbits, bbits) if a != b) + abs(len(refbits) - len(bbits)),
            "final_t_equal": sim.t == ref_t, "steps_equal": int(sim.steps_done) == ref_steps, "snapshot_differing_doubles": None}
     sim.stop_server()
@@ -637,6 +665,148 @@ def mode_keyboard(p):
     res["conclusive"] = bool(info["paused"] and info["single_steps"] > 0 and res["snapshot_differing_doubles"] is not None)
     os.chdir("/"); shutil.rmtree(wd, ignore_errors=True)
     return res
+
+
+def mode_coresident(p):
+    """final bits of simulation B under one of four plans (the harness compares them across FRESH processes):
+         solo   : B alone in this process
+         after  : every simulation of p["others"] is run to the end first, then B
+         thread : the others run in threads of this process while B runs
+         served : B alone with the web server running; a snapshot pulled mid-run is continued to the end (both hashes returned)"""
+    plan = p["plan"]
+    specB = p["b"]
+    def run_to_end(spec, n_calls=3):
+        sim = build(spec)
+        for i in range(n_calls):
+            sim.integrate(spec["tmax"] * (i + 1) / n_calls, exact_finish_time=spec.get("eft", 0))
+        return sim
+    res = {"plan": plan}
+    if plan == "after":
+        for o in p["others"]:
+            x = run_to_end(o); del x
+    ths = []
+    stop = [False]
+    if plan == "thread":
+        def bg(spec):
+            while not stop[0]:
+                x = run_to_end(spec); del x
+        ths = [threading.Thread(target=bg, args=(o,)) for o in p["others"]]
+        for t in ths: t.start()
+        time.sleep(0.02)
+    if plan == "served":
+        wd = enter_workdir()
+        rng = random.Random(p.get("seed", 1))
+        sim = build(specB)
+        sim.usleep = p.get("usleep_us", 300)
+        port = start_server_robust(sim, rng)
+        snap = [None]
+        def client():
+            t0 = time.time()
+            while sim.t < 0.4 * specB["tmax"] and time.time() - t0 < 20: time.sleep(0.001)
+            try: snap[0] = fetch(port)
+            except Exception: pass
+        th = threading.Thread(target=client); th.start()
+        sim.integrate(specB["tmax"], exact_finish_time=0)
+        th.join(30)
+        sim.stop_server()
+        sim.usleep = 0
+        res["b"] = sha(canon(stream_of(sim), extra_mask=("usleep",)))
+        res["b_particles"] = sha("".join(particle_bits(sim)).encode())
+        if snap[0] is not None:
+            s2 = rebound.Simulation(snap[0]); s2.usleep = 0
+            if specB.get("kind") == "collide":
+                s2.collision_resolve = "hardsphere"        # function pointers are not part of a snapshot
+            res["snapshot_t"] = s2.t
+            if s2.t < specB["tmax"]:          # a snapshot of the final state (few large adaptive steps) has nothing to continue
+                s2.integrate(specB["tmax"], exact_finish_time=0)
+                res["b_continued_particles"] = sha("".join(particle_bits(s2)).encode())
+        os.chdir("/"); shutil.rmtree(wd, ignore_errors=True)
+        return res
+    b = build(specB)
+    if plan == "solo":
+        # control for the served plan: does a snapshot of THIS configuration restart bit-for-bit at all (property C05's business)?
+        try:
+            c0 = build(specB); c0.integrate(0.4 * specB["tmax"], exact_finish_time=0)
+            c1 = rebound.Simulation(stream_of(c0))
+            if specB.get("kind") == "collide":
+                c1.collision_resolve = "hardsphere"
+            c0.integrate(specB["tmax"], exact_finish_time=0); c1.integrate(specB["tmax"], exact_finish_time=0)
+            res["restart_is_bitexact"] = particle_bits(c0) == particle_bits(c1)
+        except Exception as e:
+            res["restart_is_bitexact"] = False
+    b.integrate(specB["tmax"], exact_finish_time=0)
+    stop[0] = True
+    for t in ths: t.join(120)
+    res["b"] = sha(canon(stream_of(b), extra_mask=("usleep",)))
+    res["b_particles"] = sha("".join(particle_bits(b)).encode())
+    res["b_steps"] = int(b.steps_done); res["b_N"] = b.N
+    try: res["b_collisions"] = int(b.collisions_N) if hasattr(b, "collisions_N") else None
+    except Exception: res["b_collisions"] = None
+    return res
+
+
+def mode_hammer(p):
+    """same-code-path overlap: for every integrator type, T simulations of THAT type (different seeds, all options that make every step
+    go through the shared helper routines) run at the same time in T threads vs one after another; catches scratch data kept in
+    function-local / file-scope statics of a routine (a data race that heterogeneous mixes rarely hit)."""
+    res = {"mismatch": [], "groups": 0, "runs": 0}
+    for g in p["groups"]:
+        specs = g["specs"]
+        def run(spec, out, k, barrier=None):
+            try:
+                sim = build(spec)
+                if barrier is not None: barrier.wait()
+                sim.integrate(spec["tmax"], exact_finish_time=spec.get("eft", 0))
+                out[k] = sha("".join(particle_bits(sim)).encode())
+            except Exception as e:
+                out[k] = "EXC %r" % (e,)
+        seq = {}
+        for k, sp in enumerate(specs):
+            run(sp, seq, k)
+        for rd in range(g.get("rounds", 2)):
+            conc = {}
+            bar = threading.Barrier(len(specs))
+            ths = [threading.Thread(target=run, args=(sp, conc, k, bar)) for k, sp in enumerate(specs)]
+            for t in ths: t.start()
+            for t in ths: t.join(120)
+            if any(t.is_alive() for t in ths):
+                print(json.dumps({"hang": True, "group": g["name"]})); sys.stdout.flush(); os._exit(3)
+            res["runs"] += len(specs)
+            for k in seq:
+                if conc.get(k) != seq[k] and len(res["mismatch"]) < 5:
+                    res["mismatch"].append({"group": g["name"], "round": rd, "spec": specs[k], "sequential": seq[k], "concurrent": conc.get(k)})
+        res["groups"] += 1
+    return res
+
+
+def mode_teardown(p):
+    """life cycle under load: simulations with a running server and clients fetching continuously are freed (Python: del ->
+    reb_simulation_free_pointers -> reb_simulation_stop_server) or have their server stopped and restarted; a crash or hang of this
+    process is the finding; afterwards a fresh simulation must still integrate to the reference bits."""
+    import gc
+    wd = enter_workdir()
+    rng = random.Random(p["seed"])
+    ref = build(p["spec"]); ref.integrate(p["tmax"]); refbits = particle_bits(ref)
+    n_free = n_restart = 0
+    for it in range(p["iterations"]):
+        sim = build(p["spec"])
+        for i in range(p.get("extra_particles", 2000)):
+            sim.add(m=0., a=5 + i * 1e-3)
+        sim.N_active = p["spec"]["n"] + 1
+        if it % 2 == 0:
+            clibrebound.reb_simulation_add_display_settings(ctypes.byref(sim))
+        port = start_server_robust(sim, rng)
+        cl = start_clients(port, wd, [0.0] * p["clients"], [0.0] * p["clients"], False)
+        time.sleep(rng.uniform(0.02, 0.08))
+        if it % 3 == 2:
+            sim.stop_server(); n_restart += 1
+            port2 = start_server_robust(sim, rng)
+            time.sleep(0.01)
+        del sim; gc.collect(); n_free += 1
+        stop_clients(*cl)
+    chk = build(p["spec"]); chk.integrate(p["tmax"])
+    os.chdir("/"); shutil.rmtree(wd, ignore_errors=True)
+    return {"freed": n_free, "restarted": n_restart, "afterwards_equal": particle_bits(chk) == refbits}
 
 
 def mode_fdclose(p):
@@ -713,7 +883,7 @@ if __name__ == "__main__":
     if mode == "client":
         mode_client(); sys.stdout.flush(); os._exit(0)
     params = json.load(sys.stdin)
-    res = {"conc": mode_conc, "server": mode_server, "torn": mode_torn, "w512": mode_w512, "fdclose": mode_fdclose, "steps": mode_steps, "keyboard": mode_keyboard}[mode](params)
+    res = {"conc": mode_conc, "server": mode_server, "torn": mode_torn, "w512": mode_w512, "fdclose": mode_fdclose, "steps": mode_steps, "keyboard": mode_keyboard, "coresident": mode_coresident, "teardown": mode_teardown, "hammer": mode_hammer}[mode](params)
     print(json.dumps(res))
     sys.stdout.flush()
     os._exit(0)
